@@ -77,12 +77,11 @@ class LockModel:
         self.facts, self.eng, self.cls = facts, eng, cls
         self.rec_name = NS + cls
         self.rec = facts.record(self.rec_name)
-        atom = [f for f in self.rec['fields'] if is_atomic_record(f['type'].get('ct', ''))]
-        if len(atom) != 1:
-            raise AnalysisBroken('%s: expected exactly one atomic data member (the lock word), found %d' % (cls, len(atom)))
+        atom = [f for f in self.rec['fields'] if is_atomic_record(f['type'].get('ct', '')) and not f['pointer']]
+        if not atom:
+            raise AnalysisBroken('%s: no atomic data member (the lock word) found' % cls)
         self.word = atom[0]['name']
-        if atom[0].get('init') is None or atom[0]['init'].get('k') not in ('const', 'initlist', 'construct'):
-            pass
+        self._atom_candidates = [f['name'] for f in atom]
         self.guards = {}
         for g in ('SGuard', 'SIXGuard', 'XGuard', 'CompositeGuard', 'OptGuard'):
             if self.rec_name + '::' + g in facts.records:
@@ -98,6 +97,17 @@ class LockModel:
                 self.fns[f['key']] = f
         acq = self.method(self.rec_name, 'LockX')
         self.tu = acq['tu']
+        if len(self._atom_candidates) > 1:
+            # several atomic members (say, a statistics counter next to the lock word): the lock word is the one the
+            # exclusive acquire writes with a CAS / exchange
+            hits = {}
+            for p in self.paths(acq)['paths']:
+                for e in p.events:
+                    if e['kind'] == 'atomic' and e['op'] in ('cas', 'exchange') and e['obj'][0] == 'field' and e['obj'][2] in self._atom_candidates:
+                        hits[e['obj'][2]] = hits.get(e['obj'][2], 0) + 1
+            if len(hits) != 1:
+                raise AnalysisBroken('%s: cannot tell the lock word among the atomic members %s' % (cls, self._atom_candidates))
+            self.word = next(iter(hits))
         self.own_field, self.ptr_field = {}, {}
         for g, rec in self.guards.items():
             self._guard_fields(g, rec)
@@ -576,9 +586,9 @@ class WordLockRules(LockModel):
                 # who may write: no other function of the class touches a lock word
                 for p in paths:
                     for e in p.events:
-                        if e['kind'] == 'atomic' and is_write(e):
+                        if e['kind'] == 'atomic' and is_write(e) and self.lock_obj_kind(e['obj'], fn) in ('LOCK', 'NODE'):
                             sink.bad('C01.WHO', '%s %s(%s)' % (short(fn['name']), e['op'], show(e['obj'])), loc_of(e),
-                                     'atomic write outside the acquire/release/convert functions')
+                                     'atomic write to a lock word outside the acquire/release/convert functions')
                 continue
             getattr(self, 'role_' + role[0])(fn, role[1], paths, res)
         self.who_may_call()
@@ -698,7 +708,7 @@ class WordLockRules(LockModel):
     # ---- helper: rows + return classification
     def rows_of(self, fn, p):
         rows = [e for k, e in self.word_events(p, fn) if is_write(e)]
-        other = [e for e in p.events if e['kind'] == 'atomic' and is_write(e) and self.lock_obj_kind(e['obj'], fn) != 'LOCK']
+        other = [e for e in p.events if e['kind'] == 'atomic' and is_write(e) and self.lock_obj_kind(e['obj'], fn) == 'NODE']
         return rows, other
 
     def expect_rows(self, fn, p, rows, other, specs, what):
